@@ -272,3 +272,61 @@ def _defaults(repo):
     return {"id": "", "clip_path": "", "clip_rule": "nonzero", "fill": "black", "fill_opacity": 1, "fill_rule": "nonzero", "stroke": "none", "stroke_width": 1,
             "stroke_linecap": "butt", "stroke_linejoin": "miter", "stroke_miterlimit": 4, "stroke_dasharray": "none", "stroke_dashoffset": 0, "stroke_opacity": 1,
             "opacity": 1, "transform": "", "style": "", "display": "inline", "d": ""}
+
+
+def check_apply_transform(repo: Repo, rep: Report, rule: str):
+    """SVGShape.apply_transform asks the engine to map the shape's own command sequence with the six components of the
+    given affine, in a b c d e f order, leaves the receiver untouched, and maps everything to M0,0 when the affine is degenerate."""
+    from sa.poly import RF
+    st = repo["svg_types"]
+    F = "svg_types.SVGShape.apply_transform"
+    rep.saw(F, "svg_pathops.transform")
+    fn = method_of(repo, "svg_types", "SVGShape", "apply_transform")
+    probs = []
+
+    def hooks(it):
+        install_path_hooks(it)
+        it.hooks[("svg_types", "SVGShape.as_cmd_seq")] = lambda i, a, k: _cmds(int(a[0].f["id"]))
+
+    def args():
+        shape = Rec(ClassRef("svg_types", "SVGPath"), dict(_defaults(repo), id="4", d=PathData([("M", (4, 0))]), fill="red"), True)
+        aff = Rec(ClassRef("svg_transform", "Affine2D"), {c: RF.sym("t" + c) for c in "abcdef"})
+        return [shape, aff]
+
+    outs, box = _run(repo, fn, args, hooks=hooks)
+    n = 0
+    for o in outs:
+        n += 1
+        degenerate = None
+        for c, v in o.decisions:
+            r = repr(c)
+            if "ta*td - tb*tc" in r:
+                degenerate = (not v) if r.startswith("not ") else v
+        if o.raised:
+            probs.append(f"raises {o.raised} ({o.raise_msg})")
+            continue
+        d = o.value.f.get("d") if isinstance(o.value, Rec) else None
+        if o.value is o.args[0]:
+            probs.append("apply_transform modifies and returns the receiver")
+        cm = d.cmds if isinstance(d, PathData) else None
+        if cm and len(cm) == 1 and isinstance(cm[0][1][0], SkResult):
+            p = cm[0][1][0].path
+            calls = [c for c in p.calls if c[0] == "transform"]
+            want_verbs = tuple((BUILDER[c], tuple(a)) for c, a in _cmds(4))
+            if tuple(p.verbs) != want_verbs:
+                probs.append("the engine is not given the shape's own command sequence")
+            if degenerate is True:
+                probs.append("a degenerate transform is handed to the engine (the result must be the single point M0,0)")
+            if len(calls) != 1 or [repr(x) for x in calls[0][1]] != ["ta", "tb", "tc", "td", "te", "tf"]:
+                probs.append(f"the engine is asked to transform with {calls}; the six components a b c d e f of the given affine, in this order, are expected")
+        elif cm == [("M", (0, 0))]:
+            if degenerate is not True:
+                probs.append("a transform that is not known to be degenerate maps the shape to M0,0")
+        else:
+            probs.append(f"result path data is {d!r}"[:200])
+        if isinstance(o.value, Rec) and o.value.f.get("fill") != "red":
+            probs.append("apply_transform loses the shape's paint")
+    if probs or not n:
+        rep.fail(rule, F, "apply_transform(Affine2D(a..f))", f"{len(probs)} deviations; first: {probs[0] if probs else 'no outcome'}", st, st.functions.get("SVGShape.apply_transform"))
+    else:
+        rep.ok(rule, F, f"{n} paths: commands mapped through the engine with (a, b, c, d, e, f); degenerate affine -> M0,0; receiver untouched, paint kept", True)
